@@ -359,9 +359,9 @@ func (fmtr INSDCFormatter) String() string {
 		b.WriteString(padding)
 		b.WriteString(f.Loc.String())
 
-		for _, key := range f.Props.Keys() {
-			for _, value := range f.Props.Get(key) {
-				q := QualifierIO{key, value}
+		for _, prop := range f.Props {
+			for _, value := range prop[1:] {
+				q := QualifierIO{prop[0], value}
 				b.WriteByte('\n')
 				b.WriteString(q.Format(prefix).String())
 
